@@ -319,8 +319,17 @@ impl St {
                 let world_level = t[1] == "w";
                 let typed = t[2] == "t";
                 let Some(h) = self.get_h(t[3]) else { return "undef".into() };
-                let at: Option<usize> = t.get(4).map(|x| x[1..].parse().unwrap());
+                let mut at: Option<usize> = None;
+                let mut fault: Option<u64> = None;
+                for x in &t[4..] {
+                    if let Some(v) = x.strip_prefix('@') {
+                        at = Some(v.parse().unwrap());
+                    } else if let Some(v) = x.strip_prefix("fault=") {
+                        fault = Some(v.parse().unwrap());
+                    }
+                }
                 let Some(w) = self.w() else { return "no-world".into() };
+                REG.with(|r| r.borrow_mut().drop_fault = fault);
                 // Result: Ok(Some(Some(row))) = components returned; Ok(Some(None)) = destroyed, dropped inside
                 let r: Result<Option<Option<Row>>, &'static str> = match h {
                     H::Ent { a, any } => {
@@ -362,6 +371,7 @@ impl St {
                         }))
                     }
                 };
+                REG.with(|r| r.borrow_mut().drop_fault = None);
                 match r {
                     // returned components were read and then dropped by the harness (after the seal)
                     Ok(Some(Some(row))) => format!("some {}{}", fmt_row(&row), reg_suffix()),
@@ -529,6 +539,7 @@ impl St {
                         "add" => cx.add = v.parse().unwrap(),
                         "dec" => cx.decisions = v.as_bytes().to_vec(),
                         "save" => save = Some(v.to_string()),
+                        "fault" => REG.with(|r| r.borrow_mut().drop_fault = Some(v.parse().unwrap())),
                         _ => return "bad-op".into(),
                     }
                 }
@@ -538,6 +549,7 @@ impl St {
                     "iterb" => (q.iterb)(w, &mut cx),
                     _ => (q.iterd)(w, &mut cx),
                 });
+                REG.with(|r| r.borrow_mut().drop_fault = None);
                 let mut s = format!("n={} [{}] end={}", cx.calls.len(), cx.calls.join("|"), match r { Ok(()) => "ok".to_string(), Err(c) => format!("panic:{}", c) });
                 if let Some(var) = save {
                     if let Some(d) = cx.last_dir {
@@ -804,6 +816,14 @@ impl St {
             "conv" => {
                 let Some(h) = self.get_h(t[1]) else { return "undef".into() };
                 conv(h)
+            }
+            "end" => {
+                // registry balance: tokens still alive that do not belong to the foreign world Wb
+                let (live, zlive) = REG.with(|r| {
+                    let r = r.borrow();
+                    (r.live.iter().filter(|t| **t < 900_000_000).count(), r.zlive)
+                });
+                format!("live={} zlive={}", live, zlive)
             }
             "nest" => {
                 let Some(nodes) = nest::parse(&t[1..]) else { return "bad-op".into() };
